@@ -1,0 +1,26 @@
+//go:build verif
+
+// Machine-checked contracts for package core (comment-only; read by /verif/govc).
+
+package core
+
+// ---- content addressing (properties C01, C05) ---------------------------------------------
+// Byte sources are named by abstract ids: rsrc(r) for what a reader yields, sliceid(b) for a
+// byte slice, fileid(path) for a file. sha256hex(id) is the (uninterpreted) hex digest of that
+// content. A source hashes to a name iff its digest equals the name.
+
+//@ specfunc sha256hex(id int) string
+//@ specfunc rawOf(hex string) string
+//@ specfunc rsrc(r io.Reader) int
+//@ specfunc sliceid(b []byte) int
+//@ specfunc hashok(id int, name string) bool = sha256hex(id) == name
+
+// Assumed (the format string and hex validation are not modelled).
+//@ func NewSHA256DigestFromHex
+//@   trusted
+//@   ensures built: result1 == nil ==> result0.algo == SHA256 && result0.hex == hex && result0.raw == rawOf(hex)
+
+// Assumed: the digester hashes exactly what the reader yields.
+//@ func Digester.FromReader
+//@   trusted
+//@   ensures digest: result1 == nil ==> result0.algo == SHA256 && result0.hex == sha256hex(rsrc(rd)) && result0.raw == rawOf(result0.hex)
